@@ -163,6 +163,15 @@ def run(ctx: Ctx) -> None:
         if ex.deadlock is not None:
             continue  # a hung execution has no complete trace; already judged
         groups.setdefault((T, N, fails, ab, rounds), []).append(LD.events_to_trace(ex.events))
+    # a consumer that is busy for a while between two results (all workers idle meanwhile) must not lose anything
+    n_stall = 0
+    for T, N, at, secs in ((2, 12, 1, 1.3), (1, 9, 2, 1.3), (3, 20, 3, 1.3)) + (() if ctx.quick else ((2, 30, 5, 3.5), (4, 40, 1, 2.2))):
+        ex = LD.run_free(T=T, N=N, stall=(at, secs), watchdog=30 + secs)
+        n_stall += 1
+        _judge(ctx, ex, T, N, (), None, 1, "free")
+        if ex.deadlock is None:
+            groups.setdefault((T, N, (), None, 1), []).append(LD.events_to_trace(ex.events))
+    ctx.cov["free_runs_with_a_stalling_consumer"] = n_stall
     jobs = []
     keys = list(groups)
     for gi, key in enumerate(keys):
